@@ -4,7 +4,7 @@
    H qdd + N = ID(qdd), M^-1 tau and the L^T L factorisation are decided by correspondence and the L3 oracle
    (H_spec from the first-principles inverse dynamics, residuals of the factorisation and of the solves). *)
 From Coq Require Import List Arith.
-From RV Require Import Scalar Laws LinAlg3 Spatial ListArr ModelDef JointDef KinDef LinDef DynDef ConsDef C14Thm WsLemmas KinThm DynThm NleThm C04Thm UtilDef EnergyThm SymThm CrbaThm CrbaThm2 CrbaThm3.
+From RV Require Import Scalar Laws LinAlg3 Spatial ListArr ModelDef JointDef KinDef LinDef DynDef ConsDef C14Thm WsLemmas KinThm DynThm NleThm C04Thm UtilDef EnergyThm SymThm CrbaThm CrbaThm2 CrbaThm3 IdLinThm.
 Section P.
   Context {T : Type} (O : Ops T) {FL : FieldLaws O}.
   Theorem C03_nonlinear_effects_is_inverse_dynamics_at_zero_acceleration
@@ -87,6 +87,25 @@ Section P2.
     odot O x (mvmul O H y) =
     ComThm.bsum O (fun j => svdot O (vF O M q x j) (rbi_mulv O (getI O M j) (vF O M q y j))) (nbodies M).
   Proof. intros W C J N2 G. exact (inertia_matrix_is_sum_JT_I_J O M q W C J N2 w0 G x y). Qed.
+  (* tau = H qdd + N: inverse dynamics is affine in qddot with linear part H, component by component -- for any
+     three well-formed workspaces (the one CRBA runs on after the position update, and those of the two inverse
+     dynamics calls).  ID(q, qd, 0) is the bias vector N by C03_nonlinear_effects_is_inverse_dynamics_at_zero_
+     acceleration.  Premises beyond WF: massless virtual bodies and an empty root joint (true of constructed models),
+     1 + 1 <> 0, joint frames are rotations. *)
+  Theorem C03_inverse_dynamics_is_H_qddot_plus_bias (M : @Model T) q qd qdd (w0 w1 w2 : @WS T) : WF M ->
+    (forall i j, 0 < i < nbodies M -> 0 < j < nbodies M -> i <> j ->
+       is_custom (jkind (getJ M i)) = true -> is_custom (jkind (getJ M j)) = true -> jcust (getJ M i) <> jcust (getJ M j)) ->
+    (forall i u, 0 < i < nbodies M -> bvirtual (getbody O M i) = true -> rbi_mulv O (getI O M i) u = svzero O) ->
+    jq (getJ M 0) + jdof (getJ M 0) = 0 ->
+    (forall i, 0 < i < nbodies M -> joint_wf O M q i) -> o2 O <> o0 O ->
+    Good O M w0 -> Good O M w1 -> Good O M w2 -> length qdd = dof_count M ->
+    let n := dof_count M in
+    let z := vzeros (o0 O) n in
+    let H := snd (crba O M (ukc_q O M w0 q) q (zerosM O n n) false) in
+    forall r, r < n ->
+      nth r (snd (inverse_dynamics O M w1 q qd qdd z None)) (o0 O) =
+      oadd O (nth r (snd (inverse_dynamics O M w2 q qd z z None)) (o0 O)) (nth r (mvmul O H qdd) (o0 O)).
+  Proof. intros W C V R J N2 G0 G1 G2 L. exact (id_affine_in_qddot O M q qd W C V R J N2 w0 w1 w2 qdd G0 G1 G2 L). Qed.
 End P2.
 Print Assumptions C03_nonlinear_effects_is_inverse_dynamics_at_zero_acceleration.
 Print Assumptions C03_nonlinear_effects_outward_pass.
@@ -95,3 +114,4 @@ Print Assumptions C03_inertia_matrix_symmetric_after_position_update.
 Print Assumptions C03_inertia_matrix_quadratic_form_is_twice_kinetic_energy.
 Print Assumptions C03_half_qd_H_qd_is_CalcKineticEnergy.
 Print Assumptions C03_inertia_matrix_is_sum_of_JT_I_J.
+Print Assumptions C03_inverse_dynamics_is_H_qddot_plus_bias.
